@@ -29,7 +29,7 @@ Accepts == {-1} \cup 0..MaxContent
 ConsumerCfgs(codec, sc) ==
   { [codec |-> codec, sc |-> sc, content |-> Blob(sc.content), term |-> sc.term, rkind |-> rk, closeOpt |-> co,
      dst |-> d, pre |-> pre, wacc |-> wa, uerr |-> ue, ekind |-> ek] :
-       ek \in (IF sc.term = "err" THEN ErrKinds ELSE {"none"}), rk \in {"reader", "readcloser", "nil"}, co \in (IF codec = "bytes" THEN BOOLEAN ELSE {FALSE}),
+       ek \in (IF sc.term = "err" THEN ErrKinds ELSE {"none"}), rk \in {"reader", "readcloser", "nil", "peeked"}, co \in (IF codec = "bytes" THEN BOOLEAN ELSE {FALSE}),
        d \in (IF codec = "bytes" THEN BytesDst ELSE TextDst), pre \in BOOLEAN, wa \in Accepts, ue \in BOOLEAN }
 
 \* drop parameter values that do not matter for the destination kind
